@@ -23,7 +23,7 @@ CALL2PRIM = {"Int8": "i8", "Int16": "i16", "Int32": "i32", "Int64": "i64", "UInt
              "Double": "f64", "Boolean": "bool", "Position": "pos"}
 CTYPE_W = {"int8_t": 1, "int16_t": 2, "int32_t": 4, "int64_t": 8, "uint8_t": 1, "uint16_t": 2, "uint32_t": 4,
            "uint64_t": 8, "char": 1, "size_t": 8, "float": 4, "double": 8, "bool": 1}
-FLAGS = ["checkAfterRead", "versionOr", "indexChecked", "lengthChecked", "valueStrFresh", "valueTypeLate", "dictLoadAdds"]
+FLAGS = ["arrayRefiled", "checkAfterRead", "versionOr", "indexChecked", "lengthChecked", "valueStrFresh", "valueTypeLate", "dictLoadAdds"]
 
 
 # --------------------------------------------------------------------------------------------
@@ -238,7 +238,17 @@ def extract(repo=None):
             raise Unread("load side of StringDictionary::ArchiveString not recognised")
         return m.group(1) == "Add"
 
+    def array_refiled():
+        # ScriptArrayHolder::Archive, load side: are the entries filed again once the archive is closed (a listener key
+        # is an unresolved pointer until then)?
+        svsrc = _read(repo, "src", "Script", "ScriptVariable.cpp")
+        b = func_body(svsrc, r"void\s+ScriptArrayHolder::Archive\s*\(\s*Archiver\s*&\s*arc\s*\)")
+        if b is None or not re.search(r"arrayValue\.Archive\s*\(\s*arc\s*\)", b):
+            raise Unread("ScriptArrayHolder::Archive not recognised")
+        return bool(re.search(r"arc\.AfterLoad\s*\(", b)) and bool(re.search(r"arrayValue\.resize\s*\(", b))
+
     flags = {
+        "arrayRefiled": item("arrayRefiled", array_refiled, True),
         "checkAfterRead": item("checkAfterRead", check_after_read, True),
         "versionOr": item("versionOr", version_or, True),
         "indexChecked": item("indexChecked", index_checked, True),
@@ -281,6 +291,8 @@ def gen_text(d):
         "def varTypeNames : List String := [%s]\n"
         "/-- `StringDictionary::ArchiveString`, load side: the text read becomes `Add(text)` (interned), not `Get(text)` -/\n"
         "def dictLoadAdds : Bool := %s\n"
+        "/-- `ScriptArrayHolder::Archive` files the entries of a loaded hash array again when the archive is closed -/\n"
+        "def arrayRefiled : Bool := %s\n"
         "/-- read branch of `ArchiveObject`: the chain `if ((endpos - objstart) OP size) throw E` behind the body -/\n"
         "def bracketInto : List (String × String) := [%s]\n"
         "/-- the same chain in the non-template `Class* ReadObject()` (a separate copy in the source) -/\n"
@@ -290,7 +302,7 @@ def gen_text(d):
             ", ".join('("%s", "%s", %d)' % t for t in d["primTable"]),
             b(d["flags"]["checkAfterRead"]), b(d["flags"]["versionOr"]), b(d["flags"]["indexChecked"]),
             b(d["flags"]["lengthChecked"]), b(d["flags"]["valueStrFresh"]), b(d["flags"]["valueTypeLate"]),
-            ", ".join('"%s"' % n for n in d["varTypeNames"]), b(d["flags"]["dictLoadAdds"]),
+            ", ".join('"%s"' % n for n in d["varTypeNames"]), b(d["flags"]["dictLoadAdds"]), b(d["flags"]["arrayRefiled"]),
             ", ".join('("%s", "%s")' % t for t in d["brackets"]["bracketInto"]),
             ", ".join('("%s", "%s")' % t for t in d["brackets"]["bracketPoly"])))
 
@@ -421,9 +433,20 @@ def parse_value(t, i, selfs):
 def strip_selfs(x):
     """forget the addresses of element variables (read-backs do not print them)"""
     if isinstance(x, list):
-        return [strip_selfs(y) for y in x]
+        out = []
+        for y in x:
+            if y[0] == "vl":
+                # a read-back shows a variable list as the calls it is: the header numbers, then the named variables in
+                # the order the archive holds them, each looked up by name in the loading dictionary
+                out += [("p", "u32", y[1]), ("p", "u32", y[2]), ("p", "u32", len(y[5])), ("p", "u16", y[3])]
+                out += [("nv", y[5][i][0], y[5][i][1], strip_selfs(y[5][i][2])) for i in y[4] if i < len(y[5])]
+            else:
+                out.append(strip_selfs(y))
+        return out
     if x[0] == "v":
         return ("v", x[1], strip_selfs(x[2]))
+    if x[0] == "nv":
+        return ("nv", x[1], x[2], strip_selfs(x[3]))
     if x[0] == "ca":
         return ("ca", x[1], x[2], [(0, strip_selfs(e)) for _, e in x[3]])
     if x[0] == "arr":
@@ -451,6 +474,15 @@ def toks(items):
             out += [k, str(it[1]), hx(it[2]), str(len(it[3]))] + toks(it[3])
         elif k == "v":
             out += ["v", str(it[1])] + vtoks(it[2])
+        elif k == "nv":
+            # ('nv', self, name | None, value): a named variable, ScriptVariable::Archive
+            out += ["nv", str(it[1]), hx(it[2]) if it[2] is not None else "-"] + vtoks(it[3])
+        elif k == "vl":
+            # ('vl', tl, th, tli, perm, [(self, name, value)...]): ScriptVariableList::Archive, entries in insertion order
+            perm = it[4] if len(it[4]) == len(it[5]) else [0] * len(it[5])
+            out += ["vl", str(it[1]), str(it[2]), str(it[3]), str(len(it[5]))] + [str(x) for x in perm]
+            for s_, name, val in it[5]:
+                out += [str(s_), hx(name)] + vtoks(val)
     return out
 
 
@@ -461,6 +493,19 @@ def parse_items(t, selfs=True):
         if k == "v":
             v, j = parse_value(t, i + 2, selfs)
             return ("v", int(t[i + 1]), v), j
+        if k == "nv":
+            v, j = parse_value(t, i + 3, selfs)
+            return ("nv", int(t[i + 1]), None if t[i + 2] == "-" else (b"" if t[i + 2] == "-" else bytes.fromhex(t[i + 2])), v), j
+        if k == "vl":
+            n = int(t[i + 4])
+            perm = [int(x) for x in t[i + 5:i + 5 + n]]
+            j = i + 5 + n
+            es = []
+            for _ in range(n):
+                s_, name = int(t[j]), bytes.fromhex(t[j + 1])
+                v, j = parse_value(t, j + 2, selfs)
+                es.append((s_, name, v))
+            return ("vl", int(t[i + 1]), int(t[i + 2]), int(t[i + 3]), perm, es), j
         if k == "p":
             return ("p", t[i + 1], int(t[i + 2])), i + 3
         if k in ("r", "s"):
@@ -509,6 +554,13 @@ def registered(items, acc=None):
         if it[0] == "v":
             acc.add(it[1])
             vregistered(it[2], acc)
+        if it[0] == "nv":
+            acc.add(it[1])
+            vregistered(it[3], acc)
+        if it[0] == "vl":
+            for s_, _, val in it[5]:
+                acc.add(s_)
+                vregistered(val, acc)
         if it[0] == "pos":
             acc.add(it[1])
         elif it[0] in OBJ:
@@ -540,6 +592,11 @@ def targets(items, acc=None):
             targets(it[3], acc)
         elif it[0] == "v":
             vtargets(it[2], acc)
+        elif it[0] == "nv":
+            vtargets(it[3], acc)
+        elif it[0] == "vl":
+            for _, _, val in it[5]:
+                vtargets(val, acc)
     return acc
 
 
@@ -652,11 +709,18 @@ class VGen:
                     k = ["k", bytes(rng.choice(TEXT) for _ in range(rng.randint(1, 6)))]
                 cand.append(k)
         for k in cand:
-            # a String and a ConstString key of the same text are the same key for the table
-            ident = ("t", k[1]) if k[0] in ("s", "k") else (k[0], k[1])
-            if ident in keys:
+            # a String and a ConstString key of the same text are the same key for the table, and so is an Integer whose
+            # decimal text it is (`EqualTo<ScriptVariable>` compares across kinds, `Hash` does not: such a pair is one
+            # entry or two depending on the buckets - not an archive matter, not generated)
+            if k[0] == "i":
+                idents = {str(k[1]).encode(), str(k[1] - 2 ** 64 if k[1] >= 2 ** 63 else k[1]).encode()}
+            elif k[0] in ("s", "k"):
+                idents = {k[1]}
+            else:
+                idents = {(k[0], k[1])}
+            if idents & keys:
                 continue
-            keys.add(ident)
+            keys |= idents
             es.append((self.fresh(), k, self.fresh(), self.scalar()))
         v = ["arr", h, None, 0, 0, 0, [], es]
         self.aholders.append(h)
@@ -731,7 +795,7 @@ class VGen:
         return tuple(v)
 
 
-def gen_case(rng, nitems, nobj=None, maxstr=300, dangling=0.04, values=0.2, modes=0.6, poly_scripted=True):
+def gen_case(rng, nitems, nobj=None, maxstr=300, dangling=0.04, values=0.2, modes=0.6, poly_scripted=True, named=False):
     """a typed write sequence over primitives, strings, raw blocks and an object graph of `nobj`
     listeners whose plain / safe pointers are written before and after (and inside) their targets.
     poly_scripted=False (C11): the polymorphic ReadObject() is used for Listener records only.  The model lets the
@@ -761,8 +825,32 @@ def gen_case(rng, nitems, nobj=None, maxstr=300, dangling=0.04, values=0.2, mode
 
     vg = VGen(rng, lambda: ptr()[1])
 
+    def named_items():
+        """a named variable, or a ScriptVariableList of 0..20 named variables (distinct names, some of them predefined
+        strings of every dictionary)"""
+        def val():
+            v = vg.scalar()
+            return v
+        if rng.random() < 0.4:
+            s_ = vg.fresh()
+            vg.allvars.append(s_)
+            name = None if rng.random() < 0.15 else bytes(rng.choice(TEXT) for _ in range(rng.randint(1, 10)))
+            return ["nv", s_, name, val()]
+        names, es = set(), []
+        for _ in range(rng.choice([0, 1, 2, 3, 5, 8, 20])):
+            name = rng.choice([b"self", b"local", b"level"]) if rng.random() < 0.1 else bytes(rng.choice(TEXT) for _ in range(rng.randint(1, 8)))
+            if name in names:
+                continue
+            names.add(name)
+            s_ = vg.fresh()
+            vg.allvars.append(s_)
+            es.append((s_, name, val()))
+        return ["vl", 0, 0, 0, [], es]
+
     def plain_item(top=False):
         r = rng.random()
+        if top and named and r < values and rng.random() < 0.25:
+            return named_items()
         if top and r < values:      # the model has script values at the top level of a sequence only
             s_ = vg.fresh()
             vg.allvars.append(s_)
@@ -829,6 +917,10 @@ def gen_case(rng, nitems, nobj=None, maxstr=300, dangling=0.04, values=0.2, mode
                     out.append(("v", it[1], ("ptr", cell_label[g], list(vg.cells[g]))))
             elif it[0] == "v":
                 out.append(("v", it[1], vg.freeze(it[2])))
+            elif it[0] == "nv":
+                out.append(("nv", it[1], it[2], vg.freeze(it[3])))
+            elif it[0] == "vl":
+                out.append(("vl", 0, 0, 0, [], [(s_, name, vg.freeze(val)) for s_, name, val in it[5]]))
             elif it[0] in OBJ:
                 out.append((it[0], it[1], it[2], freeze(it[3])))
             else:
@@ -854,6 +946,12 @@ def arrays_of(items, acc=None):
     for it in items:
         if it[0] == "v":
             _arrays_of_value(it[2], acc)
+        elif it[0] == "nv":
+            _arrays_of_value(it[3], acc)
+        elif it[0] == "vl":
+            for _, _, val in it[5]:
+                _arrays_of_value(val, acc)
+            acc.append(it)
         elif it[0] in OBJ:
             arrays_of(it[3], acc)
     return acc
@@ -874,6 +972,12 @@ def _patch_items(items, fix):
     for it in items:
         if it[0] == "v":
             out.append(("v", it[1], _patch_value(it[2], fix)))
+        elif it[0] == "nv":
+            out.append(("nv", it[1], it[2], _patch_value(it[3], fix)))
+        elif it[0] == "vl":
+            es = [(s_, name, _patch_value(val, fix)) for s_, name, val in it[5]]
+            tl, th, tli, perm = fix.pop(0)
+            out.append(("vl", tl, th, tli, perm, es))
         elif it[0] in OBJ:
             out.append((it[0], it[1], it[2], _patch_items(it[3], fix)))
         else:
@@ -964,6 +1068,12 @@ class ADiff(common.Diff):
             sig0 = crash0 if crash0 else self.prop.classify(case, impl0, crash0, model0)[2]
 
             def fails(sub):
+                # the walk order of a hash table / variable list depends on the rest of the line (dictionary ids)
+                try:
+                    info_ = (int(head[1]), b"" if head[2] == "-" else bytes.fromhex(head[2]), b"" if head[3] == "-" else bytes.fromhex(head[3]))
+                    sub = canon(self.exe, case[0], [(info_, sub)])[0][1]
+                except Exception:
+                    return False
                 lines = [case[0], " ".join(head + toks(sub))]
                 impl, crash, info, model = self.both(lines)
                 if crash is None and common.first_diff(impl, model) is None and not any(
@@ -976,6 +1086,11 @@ class ADiff(common.Diff):
                     items = common.ddmin(items, fails, max_tests=80)
                 finally:
                     self.base_timeout = saved
+            try:
+                info_ = (int(head[1]), b"" if head[2] == "-" else bytes.fromhex(head[2]), b"" if head[3] == "-" else bytes.fromhex(head[3]))
+                items = canon(self.exe, case[0], [(info_, items)])[0][1]
+            except Exception:
+                pass
             case = [case[0], " ".join(head + toks(items))]
         return super().report(name, case)
 
